@@ -10,7 +10,10 @@ real client over SimNet.
                        thorough tier) and seeded random strings.  No schedule.
   W2  props/_c04w2.py  write programs under back-pressure / reset / cancel /
                        executor compression, Response bodies of every payload
-                       kind, client request bodies, real-server sample.
+                       kind, client request bodies (given to the request call or
+                       swapped in by a client middleware through
+                       ClientRequest.update_body(), sent again by a retry
+                       middleware), real-server sample.
       props/_c04w3.py  web.FileResponse behind the real server while another
                        writer changes the served file at a point of the
                        file-access seam (stat / open / fstat / read).
@@ -54,7 +57,7 @@ RULE = (
     "a harmless string); one scenario = one position x a block of code points. Seeded: W2 programs (write_headers, "
     "send_headers, write(n), write_eof(n), set_eof, drain with n in {0,1,2047..2049,65535..65537,...}; chunked / declared "
     "length / neither; deflate/gzip or none; Response/StreamResponse with bytes, Payload, file, text file, async "
-    "iterator, multipart with/without size; client bodies; real server sample; FileResponse (sendfile / read loop / "
+    "iterator, multipart with/without size; client bodies, also swapped by a client middleware through ClientRequest.update_body() (no body / known size / unknown size -> any of them, once or twice) and / or sent again by a retry middleware (same request and payload written 2-3 times); real server sample; FileResponse (sendfile / read loop / "
     "NOSENDFILE / compression, Range, HEAD, .gz sibling) with the file truncated, extended, rewritten, replaced or unlinked "
     "after the k-th stat/open/fstat/read of a request) x faults, and W1 positions x random hostile strings. Non-trivial: W1 block containing both refused and accepted strings; W2 run in which a fault fired "
     "(transport paused the writer, kill, cancel, executor job) or >=3 body calls were made. Distinct = interleaving signature."
@@ -154,11 +157,16 @@ def enumerate_cases(tier, seed):
                   "1st and 2nd read of the first of two requests) x change of the served file (rewritten / truncated / extended in "
                   "place, replaced by rename, unlinked) x body sent by read loop, simulated sendfile, NOSENDFILE or "
                   "chunked+deflate x with / without Range")
-    return _enum(names, blocks, list(W1.CORE), full, fcases)
+    mcases = list(W2.enum_mw_cases())
+    ENUM_RULE += (f"; and {len(mcases)} ClientRequest.update_body() cases: body the request was built with (none, bytes, file, "
+                  "StringIO, async iterator, multipart with / without size, FormData) x body a client middleware swaps in (every "
+                  "body kind) x POST / GET x chunked asked for or not x with / without compression; every re-sendable body kind sent twice "
+                  "by a retry middleware, as built and after a swap")
+    return _enum(names, blocks, list(W1.CORE), full, fcases + mcases)
 
 
 def _enum(names, blocks, core, full, fcases=()):
-    # the file-seam cases are few and cheap: first, so that they never depend on the enumeration budget
+    # the update_body and file-seam cases are few and cheap: first, so that they never depend on the enumeration budget
     yield from fcases
     for rng_ in blocks:
         for nm in names:
